@@ -631,8 +631,9 @@ class _DtypeLint:
     integer array), 'float' (surely floating: float literal, true division, trig/sqrt/hypot result, Quantity, explicit
     float dtype), 'scalar' (a Python number or unknown: neither overflows nor promotes)."""
 
-    def __init__(self, ctx, model):
+    def __init__(self, ctx, model, coord_attrs=('x', 'y', 'xy')):
         self.ctx, self.m = ctx, model
+        self.coord_attrs = set(coord_attrs)     # attributes whose value keeps the caller's (possibly fixed-width) integer type
         self.problems = []          # (FuncInfo, node, text)
         self.done = {}
 
@@ -706,7 +707,7 @@ class _DtypeLint:
         if isinstance(n, ast.Name):
             return env.get(n.id, 'scalar')
         if isinstance(n, ast.Attribute):
-            if n.attr in ('x', 'y', 'xy'):
+            if n.attr in self.coord_attrs:
                 return 'coord'
             if n.attr in ('value',) or n.attr in ('real',):
                 return self.kind(fi, n.value, env, depth)
